@@ -19,7 +19,7 @@
 (***************************************************************************)
 EXTENDS DataDriven
 
-VARIABLES cfg, T, files, extended, steps, hist, tid, l, doneJobs
+VARIABLES cfg, T, files, grown, top, extended, steps, hist, tid, l, doneJobs
 P == INSTANCE Pipeline WITH MaxI <- 1000, MaxN <- 1000, MaxC <- 1000,
                              MaxT <- 100000, MaxSteps <- 100000,
                              MinN <- 1, MinC <- 1
@@ -30,7 +30,10 @@ Init == /\ tid \in 1..NRecs
         /\ l = 1
         /\ cfg = [I |-> Recs[tid].cfg.I, N |-> Recs[tid].cfg.N, C |-> Recs[tid].cfg.C]
         /\ T = Recs[tid].T0
-        /\ files = [t \in 0..(cfg.N * cfg.C - 1) |-> P!Absent]
+        /\ files = [t \in 0..(cfg.N * cfg.C - 1) |-> P!NoFile]
+        /\ grown = {}
+        /\ top = [t \in 0..(cfg.N * cfg.C - 1) |->
+                    P!Runs([I |-> cfg.I, N |-> cfg.N, C |-> cfg.C, T |-> T], t)]
         /\ extended = FALSE /\ steps = 0 /\ hist = <<>>
         /\ doneJobs = {}
 
@@ -45,30 +48,40 @@ StepPartial == /\ Consume /\ Ev(tid, l).a = "partial"
 StepExtend == /\ Consume /\ Ev(tid, l).a = "extend"
               /\ P!Extend(Ev(tid, l).trials)
               /\ doneJobs' = {}
-Next == StepJob \/ StepPartial \/ StepExtend
+\* a simulation is appended to an input: every job has to run again for it
+StepGrow == /\ Consume /\ Ev(tid, l).a = "grow"
+            /\ P!Grow(Ev(tid, l).input)
+            /\ doneJobs' = {}
+Next == StepJob \/ StepPartial \/ StepExtend \/ StepGrow
 
 Inputs == 0..(cfg.I - 1)
 Violations(e) ==
   LET o == e.obs IN
      (IF o.raised = "" THEN {} ELSE {"run_parallel_raised"})
-\cup (IF ~extended /\ \E i \in Inputs : o.totals[i + 1] > T
+\cup (IF ~extended /\ \E i \in Inputs : o.totals[i + 1] > T \/ o.totalsb[i + 1] > T
       THEN {"more_trials_than_requested_for_an_input"} ELSE {})
-\cup (IF ~extended /\ doneJobs = 1..cfg.N /\ \E i \in Inputs : o.totals[i + 1] # T
+\cup (IF ~extended /\ doneJobs = 1..cfg.N /\
+         \E i \in Inputs : o.totals[i + 1] # T \/ (i \in grown /\ o.totalsb[i + 1] # T)
       THEN {"total_trials_of_an_input_differ_from_the_request_after_all_jobs"} ELSE {})
-\cup (IF e.a = "job" /\ \E t \in P!TasksOf(e.job) : o.files[t + 1] < 1
+\cup (IF e.a = "job" /\ \E t \in P!TasksOf(e.job) : o.files[t + 1] < 1 \/ (P!Grown(t) /\ o.filesb[t + 1] < 1)
       THEN {"task_without_a_trial_or_without_a_result_file_of_its_own"} ELSE {})
-\cup (IF \E t \in P!Tasks \ P!TasksOf(e.job) : o.files[t + 1] < o.before[t + 1]
+\cup (IF \E t \in P!Tasks \ P!TasksOf(e.job) : o.files[t + 1] < o.before[t + 1] \/ o.filesb[t + 1] < o.beforeb[t + 1]
       THEN {"result_file_of_a_task_of_another_job_lost_or_shortened"} ELSE {})
+     \* whatever the history of requests and extensions of inputs
+\cup (IF \E t \in P!Tasks : o.files[t + 1] > top[t] \/ o.filesb[t + 1] > top[t]
+      THEN {"task_holds_more_trials_than_the_largest_share_it_was_asked_for"} ELSE {})
 Notes(e) ==
   LET o == e.obs IN
-     (IF \E t \in P!Tasks : (IF o.files[t + 1] < 0 THEN 0 ELSE o.files[t + 1]) # P!Stored(t)
+     (IF \E t \in P!Tasks : \/ (IF o.files[t + 1] < 0 THEN 0 ELSE o.files[t + 1]) # P!Stored(t)
+                             \/ (IF o.filesb[t + 1] < 0 THEN 0 ELSE o.filesb[t + 1]) # P!StoredB(t)
       THEN {"result_files_differ_from_Pipeline_tla"} ELSE {})
-\cup (IF o.analysis # o.totals THEN {"analysis_n_trials_differ_from_the_result_files"} ELSE {})
+\cup (IF o.analysis # o.totals \/ o.analysisb # o.totalsb
+      THEN {"analysis_n_trials_differ_from_the_result_files"} ELSE {})
 \cup (IF extended /\ doneJobs = 1..cfg.N /\ \E i \in Inputs : o.totals[i + 1] # T
       THEN {"after_an_extension_the_totals_differ_from_the_new_request"} ELSE {})
 
 Judged ==
-  (l > 1 /\ Ev(tid, l - 1).a # "extend") =>
+  (l > 1 /\ Ev(tid, l - 1).a \notin {"extend", "grow"}) =>
     LET e == Ev(tid, l - 1) IN
     /\ (Violations(e) = {} \/ PrintT(<<"REJECT", Recs[tid].id,
                                        { "step_" \o ToString(l - 1) \o ":" \o c : c \in Violations(e) }>>))
@@ -77,5 +90,6 @@ Judged ==
 
 Conservation == P!Conservation
 NeverTooMany == P!NeverTooMany
+NoTaskBeyondItsLargestShare == P!NoTaskBeyondItsLargestShare
 Post == PrintT(<<"CHECKED", TLCGet("distinct") - NRecs>>)
 =============================================================================
